@@ -735,4 +735,128 @@ theorem tie_kubeGuards (o n : List Nat) (a b : Nat) :
   · by_cases h : o.length = n.length <;> simp [h, Int.natCast_inj]
   · by_cases h : a = b <;> simp [h, Int.natCast_inj]
 
+/-! ### round 5: derived control-flow facts, the reconnect loop, Unmonitor / Close / WithExactMatch, the watch arguments -/
+
+/-- doKeepAlive: both error paths `break` out of the `select` only — the `for range ticker.C` loop goes on and the
+registration is attempted again at the next tick (`doKeepAlive true`, theorem `reregistration_retries_until_success`;
+a `break` that leaves the `for` is `doKeepAlive false`, witness `single_failure_ends_a_loop_without_retry`). -/
+theorem tie_doKeepAliveRetries : doKeepAliveBreaks = ["select", "select"] := by decide
+
+/-- load: the only `break` leaves the retry loop, after a Get without error -/
+theorem tie_loadRetries : loadBreaks = ["for"] := by decide
+
+/-- no function literal started inside a loop uses the loop's own variable (go.mod is below 1.22: the variable would be
+shared by all iterations and a goroutine started in the loop would see the last element — `reconnectShared`, witness
+`shared_loop_variable_reloads_only_the_last_key`); `cluster.reload` copies it first (`k := key`): `reconnectAll`. -/
+theorem tie_noSharedLoopVariableInClosures : goPerIterationLoopVars = true ∨ loopVarCaptures = [] := by decide
+
+/-- `cluster.reload` statement by statement: EVERY key of `c.watchers` is collected and for each a goroutine loads and
+watches THAT key — `reconnectAll` -/
+theorem tie_reloadStmts : reloadStmts =
+    ["c.reloadLock.Lock()",
+     "defer c.reloadLock.Unlock()",
+     "c.lock.Lock()",
+     "close(c.done)",
+     "c.lock.Unlock()",
+     "c.watchGroup.Wait()",
+     "c.lock.Lock()",
+     "var keys []watchKey",
+     "for wk, wval := range c.watchers {",
+     "keys = append(keys, wk)",
+     "if wval.cancel != nil {",
+     "wval.cancel()",
+     "}",
+     "}",
+     "c.done = make(chan lang.PlaceholderType)",
+     "c.watchGroup = threading.NewRoutineGroup()",
+     "c.lock.Unlock()",
+     "for _, key := range keys {",
+     "k := key",
+     "c.watchGroup.Run(func() { rev := c.load(cli, k) c.watch(cli, k, rev) })",
+     "}"]
+    ∨ (goPerIterationLoopVars = true ∧ reloadStmts.length = 20) := by decide
+
+/-- `Unmonitor`: the listener is removed from the watcher of ITS key; the watcher (and its watch) go away only when
+no listener is left — the other keys of the cluster are not touched (multi-key sections: `close` / `reopen`) -/
+theorem tie_unmonitorStmts : unmonitorStmts =
+    ["c, exists := r.getCluster(endpoints)",
+     "if !exists {",
+     "return",
+     "}",
+     "wkey := watchKey{ key: key, exactMatch: exactMatch, }",
+     "c.lock.Lock()",
+     "defer c.lock.Unlock()",
+     "watcher, ok := c.watchers[wkey]",
+     "if !ok {",
+     "return",
+     "}",
+     "for i, listener := range watcher.listeners {",
+     "if listener == l {",
+     "watcher.listeners = append(watcher.listeners[:i], watcher.listeners[i+1:]...)",
+     "break",
+     "}",
+     "}",
+     "if len(watcher.listeners) == 0 {",
+     "if watcher.cancel != nil {",
+     "watcher.cancel()",
+     "}",
+     "delete(c.watchers, wkey)",
+     "}"] := by decide
+
+/-- `Subscriber.Close` unmonitors exactly what `NewSubscriber` monitored (same endpoints, key, exactMatch, container);
+`WithExactMatch` sets the flag that both forward -/
+theorem tie_closeAndExactMatch :
+    subscriberCloseStmts = ["internal.GetRegistry().Unmonitor(s.endpoints, s.key, s.exactMatch, s.items)"]
+    ∧ withExactMatchStmts = ["return func(sub *Subscriber) { sub.exactMatch = true }"] := by decide
+
+/-- `cluster.monitor` / `cluster.addListener` statement by statement: the listener is appended to the watcher of the
+key (created when absent), then the key is loaded, then watched from the loaded revision -/
+theorem tie_clusterMonitorStmts :
+    clusterMonitorStmts =
+      ["cli, err := c.getClient()",
+       "if err != nil {",
+       "return err",
+       "}",
+       "c.addListener(key, l)",
+       "rev := c.load(cli, key)",
+       "c.watchGroup.Run(func() { c.watch(cli, key, rev) })",
+       "return nil"]
+    ∧ clusterAddListenerStmts =
+      ["c.lock.Lock()",
+       "defer c.lock.Unlock()",
+       "watcher, ok := c.watchers[key]",
+       "if ok {",
+       "watcher.listeners = append(watcher.listeners, l)",
+       "return",
+       "}",
+       "val := newWatchValue()",
+       "val.listeners = []UpdateListener{l}",
+       "c.watchers[key] = val"] := by decide
+
+/-- `NewPublisher` forwards endpoints / key / value and applies every option; `KeepAlive` is one attempt whose error is
+returned (`keepAlive`) -/
+theorem tie_publisherEntryPoints :
+    newPublisherStmts =
+      ["publisher := &Publisher{ endpoints: endpoints, key: key, value: value, quit: syncx.NewDoneChan(), pauseChan: make(chan lang.PlaceholderType), resumeChan: make(chan lang.PlaceholderType), }",
+       "for _, opt := range opts {",
+       "opt(publisher)",
+       "}",
+       "return publisher"]
+    ∧ keepAliveStmts =
+      ["cli, err := p.doRegister()",
+       "if err != nil {",
+       "return err",
+       "}",
+       "proc.AddWrapUpListener(func() { p.Stop() })",
+       "return p.keepAliveAsync(cli)"] := by decide
+
+/-- the arguments `load` / `setupWatch` hand to etcd: the exact key, or the key's prefix `makeKeyPrefix(key.key)` with
+WithPrefix; the watch continues at the revision after the loaded one exactly when a revision was loaded -/
+theorem tie_watchArgs :
+    loadGetArgs = ["ctx | key.key", "ctx | makeKeyPrefix(key.key) | clientv3.WithPrefix()"]
+    ∧ setupWatchArgs = ["clientv3.WithRequireLeader(ctx) | wkey | ops..."]
+    ∧ setupWatchRevArgs = ["rev + 1"]
+    ∧ ∀ rev : Int, setupWatchRevGuard rev = decide (rev ≠ 0) := by
+  refine ⟨by decide, by decide, by decide, fun rev => rfl⟩
+
 end GoZero.C13.Tie
